@@ -4,9 +4,11 @@ package vh
 
 import (
 	"fmt"
+	"os"
 	"sort"
 	"strconv"
 	"strings"
+	"time"
 )
 
 // Helpers shared by the C03 drivers (sorter, rstream): the per-case source byte string and the
@@ -61,4 +63,15 @@ func Poison(b []byte) {
 	for i := range b {
 		b[i] = 0xEE
 	}
+}
+
+// Watchdog turns an operation that never returns (an endless loop in the code under test) into a
+// crash of the driver with a message, instead of a check that hangs. Call the returned stop func
+// when the operation is over.
+func Watchdog(op string, d time.Duration) (stop func() bool) {
+	t := time.AfterFunc(d, func() {
+		fmt.Fprintf(os.Stderr, "\nverif: operation did not return within %v (endless loop in the code under test?): %s\n", d, op)
+		os.Exit(3)
+	})
+	return t.Stop
 }
